@@ -693,6 +693,7 @@ class _SetOperation(Selectable, Term):  # type:ignore[misc]
         the alias, otherwise the field will be rendered as SQL.
         """
         clauses = []
+        ctx = ctx.copy(subquery=True)
         selected_aliases = {s.alias for s in self.base_query._selects}
         for field, directionality in self._orderbys:
             term = (
@@ -882,7 +883,7 @@ class QueryBuilder(Selectable, Term):  # type:ignore[misc]
             return " DO NOTHING"
         elif len(self._on_conflict_do_updates) > 0:
             updates = []
-            value_ctx = ctx.copy(with_namespace=True)
+            value_ctx = ctx.copy(with_namespace=True, subquery=True)
             for field, value in self._on_conflict_do_updates:
                 if value:
                     updates.append(
@@ -1754,6 +1755,7 @@ class QueryBuilder(Selectable, Term):  # type:ignore[misc]
         otherwise the entire field will be rendered as SQL.
         """
         clauses = []
+        ctx = ctx.copy(subquery=True)  # a query used as a term is bracketed, also when this statement stands alone
         selected_aliases = {s.alias for s in self._selects}
         for field in self._groupbys:
             if (alias := field.alias) and alias in selected_aliases:
@@ -1789,6 +1791,7 @@ class QueryBuilder(Selectable, Term):  # type:ignore[misc]
         the alias, otherwise the field will be rendered as SQL.
         """
         clauses = []
+        ctx = ctx.copy(subquery=True)
         selected_aliases = {s.alias for s in self._selects}
         for field, directionality in self._orderbys:
             term = (
@@ -1809,7 +1812,7 @@ class QueryBuilder(Selectable, Term):  # type:ignore[misc]
         return " WITH ROLLUP"
 
     def _having_sql(self, ctx: SqlContext) -> str:
-        having = self._havings.get_sql(ctx)  # type:ignore[union-attr]
+        having = self._havings.get_sql(ctx.copy(subquery=True))  # type:ignore[union-attr]
         return f" HAVING {having}"
 
     def _offset_sql(self, ctx: SqlContext) -> str:
@@ -1824,11 +1827,12 @@ class QueryBuilder(Selectable, Term):  # type:ignore[misc]
 
     def _set_sql(self, ctx: SqlContext) -> str:
         field_ctx = ctx.copy(with_namespace=False)
+        value_ctx = ctx.copy(subquery=True)
         return " SET {set}".format(
             set=",".join(
                 "{field}={value}".format(
                     field=field.get_sql(field_ctx),
-                    value=value.get_sql(ctx),
+                    value=value.get_sql(value_ctx),
                 )
                 for field, value in self._updates
             )
